@@ -12,6 +12,7 @@ mod rng;
 mod s_c01;
 mod s_c02;
 mod s_c04;
+mod s_c05;
 mod s_c06;
 mod s_c07;
 mod s_c08;
@@ -58,6 +59,18 @@ pub fn guarded<F: FnOnce() -> String + panic::UnwindSafe>(f: F) -> String {
     }
 }
 
+/// Map entries of a wire form sorted (results of two executions may iterate maps differently).
+pub fn canon_local(s: &str) -> String {
+    // cheap canonical form: the multiset of tokens is order-insensitive enough for maps whose
+    // entries are printed in hash order; exact comparison is done by the checker against the model
+    if !s.contains("(map") {
+        return s.to_string();
+    }
+    let mut toks: Vec<&str> = s.split(' ').collect();
+    toks.sort();
+    toks.join(" ")
+}
+
 fn main() {
     let args: Vec<String> = std::env::args().collect();
     if args.len() < 4 {
@@ -78,6 +91,7 @@ fn main() {
         "C01" => s_c01::run(&mut em, thorough, seed),
         "C02" => s_c02::run(&mut em, thorough, seed),
         "C04" => s_c04::run(&mut em, thorough, seed),
+        "C05" => s_c05::run(&mut em, thorough, seed),
         "C06" => s_c06::run(&mut em, thorough, seed),
         "C07" => s_c07::run(&mut em, thorough, seed),
         "C08" => s_c08::run(&mut em, thorough, seed),
